@@ -2,8 +2,8 @@
 
 ENGINES = [
     {'name': 'vloop', 'path': 'vp/vloop.py', 'serves_properties': ['C03'], 'kind_free_text': 'virtual asyncio loop with explicit, classified ready-queue (order-preserving-delay scheduler seam)'},
-    {'name': 'explore', 'path': 'vp/explore.py', 'serves_properties': ['C03', 'C06', 'C07', 'C08', 'C13', 'C16', 'C19', 'C20'], 'kind_free_text': 'deviation-bounded stateless schedule explorer (replay prefix on fresh objects, divergence = harness error)'},
-    {'name': 'enumerate', 'path': 'vp/props/*.py', 'serves_properties': ['C01', 'C02', 'C04', 'C05', 'C10', 'C11', 'C12', 'C14', 'C15', 'C18'], 'kind_free_text': 'bounded-exhaustive enumeration of inputs/histories against a Python reference model, executed on the real code'},
+    {'name': 'explore', 'path': 'vp/explore.py', 'serves_properties': ['C03', 'C06', 'C07', 'C08', 'C09', 'C13', 'C16', 'C19', 'C20'], 'kind_free_text': 'deviation-bounded stateless schedule explorer (replay prefix on fresh objects, divergence = harness error)'},
+    {'name': 'enumerate', 'path': 'vp/props/*.py', 'serves_properties': ['C01', 'C02', 'C04', 'C05', 'C10', 'C11', 'C12', 'C14', 'C15', 'C17', 'C18'], 'kind_free_text': 'bounded-exhaustive enumeration of inputs/histories against a Python reference model, executed on the real code'},
 ]
 
 NOTES = ('All checks drive the real bumble code imported from /repo\'s working tree; no model in another language. '
@@ -147,6 +147,21 @@ CLAIMS['C12'] = {
     'technique': 'bounded-exhaustive enumeration of database shapes from a grammar x MTU pairs x bearers on real client/server stacks against an independent reference, exhaustive subscription-state vectors over three bearers, and tree exploration of adversarial response scripts with a request budget for the termination clause',
     'text': 'discovery: all database shapes with <=2 of 5 grammar axes off the minimal database (1-3 services x UUID widths 16/32/128 x primary/secondary x include edges/chains/runs, characteristic UUID-width patterns, property sets, 0-2 descriptors + CCCD, static/dynamic values), also behind the default GAP/GATT services, x links (no MTU exchange, MTU preference pairs from {23,24,50,185,517}^2, EATT MTU 64/2048): every discovery procedure equals the reference tree (UUIDs by value, handles, end-group handles, properties), every attribute reads back its value, writes with/without response take effect. long_read: value lengths {0,1,MTU-4..MTU,k(MTU-1)+-1,511,512} x 28 links (thorough: every MTU 23..517 both ways). notify: every subscription vector in {none,N,I}^6 over 3 bearers (ATT of two clients + EATT) x 16 API forms: PDU kind on the wire, exactly the subscribed bearers, truncation to MTU-3, one confirmation per indication and the call pending until it arrives. termination: 6 discovery procedures x scripts of <=3 items over 14 adversarial response kinds with the last repeated for ever, request budget 70000.',
     'note': '<=2 grammar axes off; one EATT bearer; long writes (prepare/execute) are not in the client API. Non-termination is budget-confirmed for one representative per (procedure, repeated item).',
+}
+
+CLAIMS['C09'] = {
+    'level': 'exploration',
+    'engine': 'explore',
+    'technique': 'exhaustive enumeration of channel operation histories on 1-2 links of real stacks against a reference model of open channels, link disconnection injected at every message boundary, identifier-exhaustion churn, and deviation-bounded schedule exploration',
+    'text': 'seq1/seq2: every script over {open(LE CoC on 2 PSMs, enhanced x n, classic), refused open, close by client/server/both at once, abort, drain, concurrent opens from both ends of a link or on two links} to depth 2-3 (thorough 3-5) on one link and on two links of one device: after every operation both managers\' channels and le_coc_channels tables contain exactly the open halves (by object identity, right key), CIDs unique and mirrored, every open after closes succeeds, per-link results equal those of the run containing only that link\'s operations. cut1/cut2: every script x every message boundary of its fault-free run x disconnect requested by either end: every waiter done within 30 virtual seconds, tables for the dead handle empty, then the link is re-made, signalling identifiers are walked and every kind of open succeeds again. churn: one channel opened/closed 70-140 times (more than the 64 dynamic CIDs and 255 identifiers). sched: <=1 delivery deviation.',
+    'note': 'Classic channels are signalled over LE links (as bumble\'s own tests do), Basic mode; deeper levels use reduced alphabets.',
+}
+CLAIMS['C17'] = {
+    'level': 'fault_enumeration',
+    'engine': 'enumerate',
+    'technique': 'fault enumeration: every <=1 (thorough <=2) deviation mutant of one well-formed PDU per registered class, all byte strings of length 0..2, nested SDP elements, malformed AT lines and hostile HCI packets injected into 15 victim beds, each followed by a reference request; step budget, CPU-time guard and RecursionError monitor',
+    'text': '15 beds (ATT server/client idle/client pending, SMP, LE and classic signalling, LE CoC, SDP, RFCOMM, HFP AG/HF, AVDTP, AVCTP/AVRCP, hostile controller on LE and classic). Seeds: one PDU per registered ATT (30), SMP (14), L2CAP signalling (20), SDP (7), AVDTP (13), HCI event (43+37 LE) class plus RFCOMM, AT, AVCTP/AVRCP, K-frame seeds; mutants: every truncation, appended byte, each length/count field at {0,1,actual-1,actual+1,max}, each byte at {00,FF}, all 256 opcodes; all byte strings of length 0-1 (length 2: boundary second bytes in quick, all in thorough) on every channel; SDP nesting to 100000; ACL fragment-flag sequences; raw HCI event/ACL/SCO/ISO bytes. After every frame: quiescence within 10^4 steps and the CPU guard, no RecursionError anywhere, the connection still present unless an independent decoder says the frame was a valid disconnect, and the protocol\'s reference request answered correctly; failures are bisected to a <=2-frame fresh-connection reproducer.',
+    'note': 'Byte strings exhaustively only to length 2; beyond that the deviation neighbourhood of one PDU per class. Ordinary exceptions are allowed by the statement and only counted.',
 }
 
 NOT_CLAIMED = {}
